@@ -417,8 +417,11 @@ func (s *Sim) playOp(op Op) {
 		s.shim.mu.Lock()
 		var rel []Op
 		for _, m := range s.shim.appAllocs(op.AppID) {
+			if m.Key == op.Key && op.Key != "" {
+				continue // swap_race: everything but the real half of the replacement in flight
+			}
 			if m.Status == stBound || m.Status == stPending {
-				rel = append(rel, Op{Kind: "release", Key: m.Key, AppID: m.App, Type: "STOPPED_BY_RM"})
+				rel = append(rel, Op{Kind: "release", Key: m.Key, AppID: m.App, Type: "STOPPED_BY_RM", Fault: op.Fault})
 			}
 		}
 		s.shim.mu.Unlock()
